@@ -43,7 +43,7 @@ def walkerTable : List (String × String × String) := [
 
 /-- node classes not handled by `visit_Node`: (class, FindNodes handler, ExpressionFinder handler) -/
 def nodeHandlers : List (String × String × String) := [
-  ("TypeDef", "visit_Node", "visit_TypeDef"),
+  ("TypeDef", "visit_TypeDef", "visit_TypeDef"),
   ("VariableDeclaration", "visit_Node", "visit_VariableDeclaration")
 ]
 
